@@ -93,7 +93,7 @@ def run(tier, seed, work):
     rep = vlib.Report("C12", tier, seed)
     jobs = build_jobs(tier, seed)
     vlib.run_jobs(jobs, work)
-    rep.absorb(jobs, keep=lambda d: (not d.startswith("OBL:")) or keep_parallel(d))
+    rep.absorb(jobs, replay_cb=vlib.ops_replay_cb("givetake"), keep=lambda d: (not d.startswith("OBL:")) or keep_parallel(d))
     rep.extraction = {"rules_fired": jobs[0].rules.summary(), "body_sha256_16": jobs[0].hashes}
     rep.trusted = ["double treated as mathematical real", "CBMC 6.11 + z3 5.1", "extractor rules", "C11 for the order inside a phase"]
     rep.assumptions = ["shape-bounded", "kernel length bounded (3, 5)", "OpenMP `reduction` clauses race-free by construction (trusted)"]
